@@ -104,6 +104,36 @@ inductive NExpr (τ : Type) where
   | delay (d : τ)                   -- `time + d` (d > 0)
   deriving Inhabited
 
+/-! ### The SimPy compatibility layer (`usim.py`): generator code of processes -/
+
+/-- what `env.run(until=..)` / `env.until(..)` is given -/
+inductive PyUntil (τ : Type) where
+  | none | time (t : τ) | event (x : Name)
+  deriving Inhabited
+
+/-- the code of a SimPy process generator (and of set-up code / native activities using the SimPy
+API), one instruction per statement; events live in variables `x` shared by the environment -/
+inductive PyInstr (τ : Type) where
+  | log (k : Int)
+  | newEvent (x : Name)                                   -- `x = env.event()`
+  | newTimeout (x : Name) (d : τ) (v : Int)               -- `x = env.timeout(d, v)`
+  | newProc (x : Name) (code : List (PyInstr τ))          -- `x = env.process(gen(env))`
+  | newCond (x : Name) (isAll : Bool) (members : List Name)   -- `x = env.all_of([..])` / `env.any_of([..])`
+  | succeed (x : Name) (v : Int)                          -- `x.succeed(v)` (RuntimeError is caught and logged)
+  | fail (x : Name) (cls : Nat)                           -- `x.fail(Exc())`
+  | trigger (x y : Name)                                  -- `x.trigger(y)`
+  | interrupt (x : Name) (cause : Int)                    -- `x.interrupt(cause)`
+  | addCallback (x : Name) (k : Int)                      -- `x.callbacks.append(log k)` if not yet processed
+  | probe (x : Name)                                      -- log triggered / processed / ok / value
+  | yieldEv (x : Name) (catching : Bool)                     -- `r = yield x`; an exception is logged and, if `catch`, handled
+  | yieldTimeout (d : τ) (v : Int) (catching : Bool)         -- `r = yield env.timeout(d, v)`
+  | yieldNative (n : NExpr τ) (catching : Bool)              -- `r = yield <usim notification>`
+  /-- `r = yield coro()` for a native coroutine `await (time + d); return v` / `raise Exc()` -/
+  | yieldCoro (d : τ) (v : Int) (failCls : Option Nat) (catching : Bool)
+  | ret (v : Int)
+  | raise (cls : Nat)
+  deriving Inhabited
+
 /-- exception patterns of a handler -/
 inductive Pat where
   | user (cls : Nat)                -- `except <class>` of the program's hierarchy
@@ -153,6 +183,22 @@ inductive Stmt (τ : Type) where
   | monitor (prog : List (Stmt τ)) (q : Name)        -- library: `_first_monitor(contestant, queue)`
   | firstLoop (q : Name) (count : Nat) (brk : Option Nat) (body : List (Stmt τ))   -- library: the `islice` loop of `first`
   | nestedRun (progs : List (List (Stmt τ))) (start : τ)       -- `usim.run(...)` called from inside an activity
+  -- usim.py: program level
+  | pyUntil (initial : τ) (untilWhat : PyUntil τ) (setup : List (PyInstr τ))   -- `env = Environment(initial); <setup>; await env.until(until)`
+  | pyWith (initial : τ) (setup : List (PyInstr τ)) (body : List (Stmt τ)) -- `<setup>; async with env: <body>`
+  | pyDo (i : PyInstr τ)                                      -- a (synchronous) SimPy API call made by a native activity
+  | pyAwait (x : Name)                                        -- `await x` by a native activity
+  -- usim.py: library coroutines (never written by programs)
+  | pyStartup                                                 -- `Environment.__aenter__` after entering its scope
+  | pyUntilBody (untilWhat : PyUntil τ)
+  | pyRunPayload (p : Nat)                                    -- `Process._run_payload`
+  | pySleep (d : τ)                                           -- `await (time + d)` inside the library
+  | pyTimeoutFire (e : Nat) (v : Int)                         -- `self.succeed(self._fixed_value)` of `Timeout._trigger_timeout`
+  | pyInvokeCallbacks (e : Nat)                               -- `Event._invoke_callbacks`
+  | pyCheckEvents (e : Nat)                                   -- `Condition._check_events`
+  | pyNativeAwait (n : NExpr τ)                               -- `result = await self._awaitable` of `AwaitableEvent`
+  | pyNativeDone (p : Nat)                                    -- `self._value = result, None; return True`
+  | pyNativeFail (p : Nat) (cls : Nat)                        -- the awaited coroutine raises: `self._value = None, err; return True`
   deriving Inhabited
 
 abbrev Prog (τ : Type) := List (Stmt τ)
@@ -171,6 +217,13 @@ inductive ExnCls where
   | notImplemented | valueError
   | activityLeak | reuse                          -- loop level: ActivityLeak, "cannot reuse already awaited coroutine"
   | ignoredExit                                   -- "coroutine ignored GeneratorExit"
+  -- usim.py
+  | pyInterrupt (cause : Int)                     -- `usim.py.exceptions.Interrupt(cause)`
+  | pyTriggeredTwice                              -- RuntimeError("... has already been triggered")
+  | stopSimulation                                -- `StopSimulation` (BaseException)
+  | stopIteration (v : Int)                       -- the generator returned (internal)
+  | stopIterationLeak                             -- RuntimeError("coroutine raised StopIteration")
+  | nameError                                     -- a generator used an unbound variable
   deriving Inhabited, BEq, Repr
 
 /-- the program's exception classes: 0 A(Exception), 1 B(A), 2 KeyError(LookupError), 3 LookupError,
@@ -195,6 +248,7 @@ def isExceptionSubclass : ExnCls → Bool     -- `isinstance(e, Exception)`
   | .user c _ => !(c == 5 || c == 6)
   | .taskCancelled .. | .taskClosed _ | .streamClosed | .resUnavailable | .intervalExceeded
   | .scopeClosed | .assertion _ | .notImplemented | .valueError | .activityLeak | .reuse | .ignoredExit => true
+  | .pyInterrupt _ | .pyTriggeredTwice | .stopIteration _ | .stopIterationLeak | .nameError => true
   | _ => false
 
 def patMatches (p : Pat) (e : ExnCls) : Bool :=
@@ -282,6 +336,8 @@ structure Scope where
   /-- `InterruptScope`: the notification listened to and the interrupt signal -/
   notification : Option CondId := none
   interrupt : Option SigId := none
+  /-- `EnvironmentScope` (usim/py/core.py): StopSimulation is promoted and suppressed -/
+  env : Bool := false
   deriving Inhabited
 
 structure Lock where
@@ -424,6 +480,20 @@ inductive Frame (τ : Type) where
   | firstGot (q : Name) (remaining : Nat) (brk : Option Nat) (body : List (Stmt τ))
   | firstYield (q : Name) (remaining : Nat) (brk : Option Nat) (body : List (Stmt τ))
   | firstEnd (closing : Bool) (pending : Option ExnId)
+  /-- usim.py: the generator of process `p` is running; `_run_payload` before its loop / inside the
+  `try` of its loop; after `_wait_interruptible`'s wait for event `e`; `Environment.until`'s handlers;
+  a native `await event`; `Condition._check_events` waiting; set-up code -/
+  | pyGen (p : Nat)
+  | pyPayloadStart (p : Nat)
+  | pyPayloadLoop (p : Nat)
+  | pyWaited (p : Nat) (e : Nat)
+  | pyNativeWaited (p : Nat)
+  | pyUntilEnd
+  | pyWithEnd
+  | pyAwaited (e : Nat)
+  | pyCheckLoop (e : Nat) (unobserved : List Nat) (observed : Nat)
+  | pyCode (code : List (PyInstr τ))
+  | raiseStop                                  -- `raise StopSimulation` of `Environment.until`
   /-- statement-level markers: completion of `transfer`, of an `async with borrow/claim` block -/
   | transferDone (p : Name)
   | borrowMark (r : Name)
@@ -444,6 +514,53 @@ inductive Frame (τ : Type) where
 inductive ActStatus where
   | created | suspended | running | finished | closed
   deriving Inhabited, BEq, Repr
+
+/-! ### usim.py objects -/
+
+inductive PyCb where
+  | log (k : Int)
+  deriving Inhabited, BEq, Repr
+
+inductive PyKind where
+  | plain | timeout | process (p : Nat) | condition (isAll : Bool) (members : List Nat)
+  deriving Inhabited, BEq, Repr
+
+structure PyEvent where
+  flag : CondId                                      -- `__usimpy_flag__`
+  value : Option (Int × Option ExnId) := none        -- `_value`
+  callbacks : Option (List PyCb) := some []          -- `None` once processed
+  defused : Bool := false
+  kind : PyKind := .plain
+  /-- the events of a condition's `ConditionValue` -/
+  cvalue : List Nat := []
+  deriving Inhabited
+
+structure PyProc (τ : Type) where
+  event : Nat
+  code : List (PyInstr τ)
+  iflag : CondId                                     -- `InterruptQueue.__usimpy_flag__`
+  causes : List Int := []
+  target : Option Nat := none
+  step : Nat := 0
+  catching : Bool := false
+  /-- a native awaitable the generator yielded, and whether `AwaitableEvent.wait_interruptible` saw it finish -/
+  native : Option (NExpr τ) := none
+  nativeCoro : Option (τ × Int × Option Nat) := none
+  nativeDone : Bool := false
+  nativeExn : Option ExnId := none
+  deriving Inhabited
+
+structure PyState (τ : Type) where
+  events : Array PyEvent := #[]
+  procs : Array (PyProc τ) := #[]
+  names : List (Name × Nat) := []
+  /-- the `EnvironmentScope` once `__aenter__` ran (`_loop is not None`) -/
+  scope : Option ScopeId := none
+  scopeName : Name := 0
+  /-- `_startup`: coroutines scheduled before the loop was known -/
+  startup : List (List (Stmt τ) × Option τ) := []
+  initial : Option τ := none
+  deriving Inhabited
 
 structure Activity (τ : Type) where
   frames : List (Frame τ)
@@ -524,6 +641,7 @@ structure World (τ : Type) where
   scopeInsts : Nat := 0
   /-- number of put operations executed so far (makes every item value unique) -/
   putCount : Nat := 0
+  py : PyState τ := {}
   deriving Inhabited
 
 end USim.Machine
